@@ -9,7 +9,7 @@
 From Coq Require Import QArith Qminmax List Bool Arith.
 From WSI Require Import Vqip Pow Tank Arc QTank Distrib Run TankLaws ArcLaws QTankLaws QueueLaws DistribLaws.
 From WSI Require Net NetLaws.
-From WSI Require Kinds TimeArea Boundary Demand DemandLaws Wtw WtwLaws LandV LandLaws LandRouting.
+From WSI Require Kinds TimeArea Boundary Demand DemandLaws Wtw WtwLaws WtwWet LandV LandLaws LandRouting.
 Import ListNotations.
 Open Scope Q_scope.
 
@@ -156,6 +156,34 @@ Example C01_fresh_water_works_nonvacuous : exists f',
   wet (Wtw.fw_treated _ f') /\ wet (vsum (Wtw.fw_liquor _ f') (Wtw.fw_solids _ f')) /\ 0 < vol (Wtw.fw_deficit _ f').
 Proof. exact WtwLaws.fw_example_ok. Qed.
 Print Assumptions C01_fresh_water_works_nonvacuous.
+
+(* ... and the wetness of what the works hand on follows from conditions on the PARAMETERS (WtwWet.params_ok: volume shares in
+   [0,1) with something for the effluent and something for the waste, positive exponent bases, per pollutant the
+   temperature-corrected share kept in the effluent plus the liquor share at most everything): the books close whenever what
+   treat_water works on and what was on the books before are wet *)
+Theorem C01_fresh_water_works_books_from_parameters : forall S (P : port S) (K : contract S P),
+  (forall s v, okS S P K s -> wet v -> forall k, vol (snd (p_push_set P s v)) <= 0 -> get (adds (snd (p_push_set P s v))) k == 0) ->
+  forall maxiter (f f' : Wtw.fwtw S) c, conserved c ->
+  star_ok S P K (Wtw.fw_ins S f) -> star_ok S P K (Wtw.fw_outs S f) -> 0 <= Wtw.w_cap (Wtw.fw_p S f) ->
+  Wtw.fw_treat_water S P maxiter f = Some f' ->
+  wet (Wtw.fw_cur S f') -> wet (Wtw.fw_treated S f) -> WtwWet.params_ok (Wtw.fw_p S f) (get (nons (Wtw.fw_cur S f')) 0) ->
+  (cmp c (t_sto (Wtw.fw_tank S f')) - cmp c (t_sto (Wtw.fw_tank S f)))
+  + (sumvin S c (Wtw.fw_outs S f') - sumvin S c (Wtw.fw_outs S f))
+  + (cmp c (Wtw.fw_unpushed S f') - cmp c (Wtw.fw_unpushed S f))
+  ==
+  (sumvin S c (Wtw.fw_ins S f') - sumvin S c (Wtw.fw_ins S f))
+  + (cmp c (Wtw.fw_deficit S f') - cmp c (Wtw.fw_deficit S f))
+  + cmp c (Wtw.fw_treated S f).
+Proof. exact WtwWet.fw_treat_water_books_from_parameters. Qed.
+Print Assumptions C01_fresh_water_works_books_from_parameters.
+Theorem C01_treatment_step_hands_on_wet_fluxes : forall p influent treated liquor, wet influent -> wet treated ->
+  WtwWet.params_ok p (get (nons influent) 0) ->
+  let '(tr, lq, so) := Wtw.w_treat p influent treated liquor in wet tr /\ wet (vsum lq so).
+Proof. exact WtwWet.w_treat_wet. Qed.
+Print Assumptions C01_treatment_step_hands_on_wet_fluxes.
+Example C01_parameter_conditions_nonvacuous : WtwWet.params_ok WtwLaws.fw_example_params (15#1).
+Proof. exact WtwWet.params_ok_example. Qed.
+Print Assumptions C01_parameter_conditions_nonvacuous.
 
 (* ---- the pervious surface of a Land node (coq/LandV.v, tied by family land) ----
    IHACRES creates and loses no water: soil store after + infiltration excess + subsurface flow + percolation = soil store
